@@ -903,7 +903,18 @@ struct elements_range_t {
 	template<class OtherRange, decltype(multi::detail::explicit_cast<pointer>(std::declval<OtherRange>().base_))* = nullptr>
 	constexpr explicit elements_range_t(OtherRange const& other) : elements_range_t{other} {}
 
-	constexpr elements_range_t(pointer base, layout_type const& lyt) : base_{base}, l_{lyt} {}
+	// positions in the range are zero-based whatever the index bases of the view:
+	// base_ already designates the first element, so the layout is re-based to zero
+	constexpr elements_range_t(pointer base, layout_type const& lyt)
+	: base_{base}, l_{zero_based_(lyt, std::make_index_sequence<static_cast<std::size_t>(layout_type::rank_v)>{})} {}
+
+ private:
+	template<std::size_t... I>
+	static constexpr auto zero_based_(layout_type lyt, std::index_sequence<I...> /*012*/) -> layout_type {
+		return lyt.reindex((static_cast<void>(I), typename layout_type::index{0})...);
+	}
+
+ public:
 
 	constexpr auto base()       ->       pointer {return base_;}
 	constexpr auto base() const -> const_pointer {return base_;}
